@@ -25,6 +25,9 @@ class SimInput:
 
     def read(self, size=-1):
         self.reads += 1
+        if size is not None and size > 0x7FFFFFFFFFFFFFFF:
+            # what BytesIO / BufferedReader / socket files do
+            raise OverflowError("Python int too large to convert to C ssize_t")
         left = len(self.data) - self.pos
         if left <= 0:
             if self.eof_seen:
@@ -125,13 +128,34 @@ class WsgiMonitor:
             self.first_body_seen = True
 
 
+class FileWrapper:
+    """wsgi.file_wrapper as servers provide it (PEP 3333): iterates the file-like object to its END in blocks."""
+
+    def __init__(self, filelike, blksize=8192):
+        self.filelike = filelike
+        self.blksize = blksize
+        if hasattr(filelike, "close"):
+            self.close = filelike.close
+
+    def __iter__(self):
+        return self
+
+    def __next__(self):
+        data = self.filelike.read(self.blksize)
+        if data:
+            return data
+        raise StopIteration
+
+
 class WsgiPeer:
-    def __init__(self, ctx, tape, req, *, short_reads=True, surface="wsgi"):
+    def __init__(self, ctx, tape, req, *, short_reads=True, surface="wsgi", file_wrapper=True):
         self.ctx = ctx
         self.tape = tape
         self.req = req
         self.input = SimInput(req.body, tape, ctx, short_reads)
         self.environ = req.to_environ(self.input)
+        if file_wrapper:      # a server capability most servers offer; an application may or may not use it
+            self.environ["wsgi.file_wrapper"] = FileWrapper
         self.monitor = WsgiMonitor(ctx, surface)
         self.status = None
         self.status_line = None
